@@ -11,6 +11,6 @@ SrvEnv ==
 NextQ == \/ \E s \in Subs : Call(s) \/ Cancel(s)
          \/ Quiescent /\ SrvEnv
          \/ \E s \in Subs : InternalSub(s)
-         \/ \E c \in Conn : InternalConn(c) \/ IdleFire(c)
+         \/ \E c \in Conn : InternalConn(c) \/ IdleFire(c) \/ PingSpurious(c)
 SpecQ == Init /\ [][NextQ]_vars
 =============================================================================
